@@ -42,6 +42,7 @@ import (
 	"context"
 	"errors"
 	"fmt"
+	"os"
 	"strconv"
 	"strings"
 	"sync"
@@ -546,6 +547,23 @@ func TestC11(t *testing.T) {
 		q, _ := strconv.Atoi(f[2])
 		lim, _ := strconv.ParseInt(f[3], 10, 64)
 		ep, _ := strconv.ParseInt(f[4], 10, 64)
+		// Watchdog in real time (this goroutine and the timer are outside the bubble).  A goroutine of the connection that waits
+		// for a sync.Mutex is not durably blocked: the bubble never becomes idle, virtual time cannot pass and the history never
+		// ends.  The line is answered with `hang`, everything written so far is flushed and the process ends; the check script
+		// goes on with the remaining lines in a new process.
+		limit := 6 * time.Second
+		if v, err := strconv.Atoi(os.Getenv("VERIF_HANG_S")); err == nil && v > 0 {
+			limit = time.Duration(v) * time.Second
+		}
+		watchdog := time.AfterFunc(limit, func() {
+			fmt.Fprintln(w, "hang")
+			_ = w.Flush()
+			os.Exit(0)
+		})
+		defer func() {
+			watchdog.Stop()
+			_ = w.Flush()
+		}()
 		if f[1] == "udp" {
 			fmt.Fprintln(w, runUDP(t, q, lim, ep, f[5:]))
 		} else {
